@@ -82,7 +82,9 @@ def h_merge(nr, nc, smode, omode, md_cfg, fkind, zeros=1, light=False):
     if light:
         t, a = make_table(nr, nc, md=md_self, zeros=zeros, type_='OTU table', unsorted=False)
     else:
-        t, a = make_table(nr, nc, md=md_self, zeros=zeros, type_='OTU table')
+        # the receiver's own ids need not be in sorted order (the fast path places operands at sorted-union positions)
+        kw_ids = dict(obs_ids=ids_for(nr, 'observation')[::-1], samp_ids=ids_for(nc, 'sample')[::-1]) if flag('receiver-ids-descending') else {}
+        t, a = make_table(nr, nc, md=md_self, zeros=zeros, type_='OTU table', **kw_ids)
     po = id_patterns(a.obs_ids, ['n1', 'n2'])
     ps = id_patterns(a.samp_ids, ['m1', 'm2'])
     if light:
